@@ -5,6 +5,7 @@ import (
 	"strings"
 	"time"
 
+	"github.com/hugelgupf/p9/linux"
 	"github.com/hugelgupf/p9/p9"
 
 	"verif/internal/ev"
@@ -294,7 +295,28 @@ func rendezvousAfter(c *ev.Ctx, w *concWorld, a cop, ta ctarget, b cop, tb ctarg
 	if hist != "moved" {
 		bindB()
 	}
-	if hist != "" && ok1 && ok2 {
+	if hist == "refused-unlink" && ok1 && ok2 {
+		// an earlier Tunlinkat of A's entry that the backend refused: nothing
+		// changed, nothing may stay locked or fenced
+		if ta.path == "/" {
+			return out, false
+		}
+		pf, okp := ca.fidAt(parentOf(ta.path), 'u', true)
+		if !okp {
+			return out, false
+		}
+		w.fs.FaultAt(1, "UnlinkAt", linux.EPERM)
+		ur := ca.s.unlinkat(pf, baseOf(ta.path))
+		w.fs.ClearFaults()
+		if !ur.OK {
+			hang(c, ur.Out, ur.Dump, "C06:request-never-answered:refused-Tunlinkat", nil)
+			return out, false
+		}
+		if ur.Errno() != EPERM {
+			return out, false
+		}
+		ca.s.clunk(pf)
+	} else if hist != "" && ok1 && ok2 {
 		if ta.path == "/" {
 			return out, false
 		}
@@ -332,9 +354,12 @@ func rendezvousAfter(c *ev.Ctx, w *concWorld, a cop, ta ctarget, b cop, tb ctarg
 	a.send(ca.p, tagA, fa, 801, ta.child)
 	po, _ := gate.WaitParked(1)
 	if po != quiesce.CondMet {
-		// A never reached the backend (rejected): not a rendezvous
+		// A never reached the backend (rejected): not a rendezvous - but it
+		// must have been answered
 		gate.Release()
-		ca.p.WaitTag(tagA, fromA)
+		if _, okA, oa, da := ca.p.WaitTag(tagA, fromA); !okA {
+			hang(c, oa, da, "C06:request-never-answered:"+a.name, map[string]any{"A": a.name + "@" + ta.path, "history": hist})
+		}
 		return out, false
 	}
 	out.parkedA = true
